@@ -259,10 +259,100 @@ pub fn forge_vacuous(steps: &[u64], log_n_cosets: u64, n_queries: u64, pow_bits:
     })
 }
 
+// ---------------------------------------------------------------------------------------------------------------------------------
+// `forge_zero_from <layout> <proof tokens>` -> proof tokens.  The zero-trace forger for ANY layout: takes the public input and the
+// config of the given proof (possibly edited by the caller), commits to all-zero tables (uniform Poseidon trees: the config must have
+// n_verifier_friendly >= every height), lets the verifier's own OODS error reveal the composition value of the zero mask, mines the
+// nonce and answers every query with zero rows.  Such a proof gets past the commitment phase, the proof of work and the three table
+// decommitments; it is rejected by FRI (the DEEP quotient of zero columns against a non-zero claimed value is not low degree) — but
+// everything BEFORE that point, in particular eval_oods_polynomial at the query points, is reached (C18: must not panic there).
+fn forge_zero_generic<L: LayoutTrait + swiftness_air::layout::GenericLayoutTrait>(base: &StarkProof) -> Result<StarkProof, String> {
+    let pi = &base.public_input; let cfg = &base.config;
+    let h = to_u64(&(cfg.log_trace_domain_size + cfg.log_n_cosets)) as usize;
+    if h > 26 { return Err("domain too large for the forger".into()); }
+    let m = L::MASK_SIZE;
+    let c1 = to_u64(&cfg.traces.original.n_columns) as usize; let c2 = to_u64(&cfg.traces.interaction.n_columns) as usize;
+    if c1 > 4096 || c2 > 4096 { return Err("too many columns for the forger".into()); }
+    let (u1, u2, u3) = (uniform_nodes_m(c1, h), uniform_nodes_m(c2, h), uniform_nodes_m(2, h));
+    let steps: Vec<usize> = cfg.fri.fri_step_sizes.iter().map(|s| to_u64(s) as usize).collect();
+    let mut fri_u = vec![]; let mut hh = h;
+    for i in 1..steps.len() { if steps[i] > hh { return Err("steps".into()); } hh -= steps[i]; fri_u.push((uniform_nodes_m(1 << steps[i], hh), hh, steps[i])); }
+    let last_len = 1usize << to_u64(&cfg.fri.log_last_layer_degree_bound).min(20);
+    let build = |tail: [Felt; 2], nonce: u64| -> StarkUnsentCommitment {
+        let mut oods = vec![Felt::ZERO; m]; oods.extend(tail);
+        StarkUnsentCommitment {
+            traces: swiftness_air::trace::UnsentCommitment { original: u1[0], interaction: u2[0] },
+            composition: u3[0], oods_values: oods,
+            fri: FriUnsent { inner_layers: fri_u.iter().map(|x| x.0[0]).collect(), last_layer_coefficients: vec![Felt::ZERO; last_len] },
+            proof_of_work: PowUnsent { nonce },
+        }
+    };
+    let domains = StarkDomains::new(cfg.log_trace_domain_size, cfg.log_n_cosets);
+    let digest0 = pi.get_hash(cfg.n_verifier_friendly_commitment_layers);
+    let mut t = Transcript::new(digest0);
+    let e = match swiftness_stark::commit::stark_commit::<L>(&mut t, pi, &build([Felt::ZERO; 2], 0), cfg, &domains) {
+        Err(e) => format!("{:?}", e), Ok(_) => return Err("zero tail accepted by the OODS check".into()) };
+    let c_hex = match e.split("actual: ").nth(1) { Some(x) => x.trim_end_matches(|ch| ch == ')' || ch == '}' || ch == ' ').to_string(),
+        None => return Err(format!("forger stopped early: {}", e.chars().take(160).collect::<String>())) };
+    let c = Felt::from_hex(&c_hex).map_err(|_| "bad hex")?;
+    let uc = build([c, Felt::ZERO], 0);
+    let mut t = Transcript::new(digest0);
+    let _ = L::traces_commit(&mut t, &uc.traces, cfg.traces.clone());
+    t.random_felt_to_prover();
+    t.read_felt_from_prover(&uc.composition); t.random_felt_to_prover();
+    t.read_felt_vector_from_prover(&uc.oods_values); t.random_felt_to_prover();
+    for r in &uc.fri.inner_layers { t.read_felt_from_prover(r); t.random_felt_to_prover(); }
+    t.read_felt_vector_from_prover(&uc.fri.last_layer_coefficients);
+    let d = t.digest().to_bytes_be();
+    let pow_bits = cfg.proof_of_work.n_bits;
+    if pow_bits > 24 { return Err("too many proof-of-work bits for the forger".into()); }
+    let mut nonce = 0u64; while verify_pow(d, pow_bits, nonce).is_err() { nonce += 1; }
+    t.read_uint64_from_prover(nonce);
+    let queries = generate_queries(&mut t, cfg.n_queries, domains.eval_domain_size);
+    let mut q: Vec<u64> = queries.iter().map(to_u64).collect(); q.dedup();
+    let nq = q.len();
+    let tw = |u: &Vec<Felt>, hgt: usize, idx: &[u64]| TW { vector: VW { authentications: uniform_auth(u, hgt, idx) } };
+    let mut layers = vec![]; let mut cur = q.clone();
+    for (u, hgt, st) in &fri_u {
+        let cs = 1u64 << st;
+        let mut cosets: Vec<u64> = cur.iter().map(|x| x / cs).collect(); cosets.dedup();
+        let n_leaves = cosets.len() * cs as usize - cur.len();
+        layers.push(LayerWitness { leaves: vec![Felt::ZERO; n_leaves], table_witness: tw(u, *hgt, &cosets) });
+        cur = cosets;
+    }
+    Ok(StarkProof {
+        config: parse_clone_cfg(cfg), public_input: parse_clone_pi(pi), unsent_commitment: build([c, Felt::ZERO], nonce),
+        witness: StarkWitness {
+            traces_decommitment: swiftness_air::trace::Decommitment { original: TD { values: vec![Felt::ZERO; nq * c1] }, interaction: TD { values: vec![Felt::ZERO; nq * c2] } },
+            traces_witness: swiftness_air::trace::Witness { original: tw(&u1, h, &q), interaction: tw(&u2, h, &q) },
+            composition_decommitment: TD { values: vec![Felt::ZERO; nq * 2] },
+            composition_witness: tw(&u3, h, &q),
+            fri_witness: FriWitness { layers },
+        },
+    })
+}
+// StarkConfig / PublicInput are not Clone: round-trip through the token format
+fn parse_clone_cfg(c: &swiftness_stark::config::StarkConfig) -> swiftness_stark::config::StarkConfig {
+    let s = crate::ops_full::fmt_cfg(c); let v: Vec<&str> = s.split(' ').collect(); crate::ops_full::parse_cfg(&v)
+}
+fn parse_clone_pi(p: &swiftness_air::public_memory::PublicInput) -> swiftness_air::public_memory::PublicInput {
+    let s = crate::ops_full::fmt_pi(p); let v: Vec<&str> = s.split(' ').collect(); crate::ops_full::parse_pi(&v)
+}
+
 pub fn run(op: &str, a: &[&str]) -> Option<Out> {
     Some(match op {
         "forge_zero" => match forge_zero(a[0] == "1", u64h(a[1]), u64h(a[2]) as u8) {
             Ok(p) => Out::Ok(crate::ops_proof::fmt_proof(&p)), Err(e) => Out::Err(e) },
+        "forge_zero_from" => {
+            let base = crate::ops_proof::parse_proof(&a[1..]);
+            let r = match a[0] {
+                "recursive" => forge_zero_generic::<Layout>(&base),
+                #[cfg(feature = "all_layouts")]
+                "dynamic" => forge_zero_generic::<swiftness_air::layout::dynamic::Layout>(&base),
+                #[cfg(feature = "all_layouts")]
+                "starknet_with_keccak" => forge_zero_generic::<swiftness_air::layout::starknet_with_keccak::Layout>(&base),
+                _ => Err("layout not supported by the forger".into()) };
+            match r { Ok(p) => Out::Ok(crate::ops_proof::fmt_proof(&p)), Err(e) => Out::Err(e) } }
         "forge_vacuous" => {
             let steps: Vec<u64> = if a[0] == "-" { vec![] } else { a[0].split(',').map(u64h).collect() };
             match forge_vacuous(&steps, u64h(a[1]), u64h(a[2]), u64h(a[3]) as u8) {
